@@ -30,6 +30,9 @@ pub fn run(ctx: &mut Ctx) {
             pos += round.setup.len();
             let body_answers = &run.answers[pos..pos + round.body.len()];
             pos += round.body.len();
+            if round.abandoned {
+                continue;
+            }
             // fresh object: same configuration, only the calls that succeeded
             let obj = if round.body.last().unwrap().line.starts_with("E") { "E" } else { "D" };
             let mut fresh = Case::new("fresh");
